@@ -335,6 +335,12 @@ func normalizeToken(in string) string {
 	// "http://source.android.com" is "httpsourceandroidcom"), which makes the
 	// rewrite non-idempotent: tokenizing Normalize output would change the word
 	// again.
+	// Normalize tokenizes without lower-casing the first rune of a word: a word
+	// that begins a sentence with "Https://" has to be rewritten as well, or
+	// matching the Normalize output sees "https" where Match saw "http".
+	if strings.HasPrefix(in, "Https://") {
+		in = "Http://" + in[len("Https://"):]
+	}
 	return strings.ReplaceAll(in, "https://", "http://")
 }
 
